@@ -527,7 +527,8 @@ impl<'a> Gen<'a> {
         let soft = !pool && self.rng.pct(c.soft_pct);
         let h = self.fresh_h();
         let (h0, limit) = if soft {
-            let n = self.rng.range(1, 4) as usize;
+            // now and then a limit far above any population (`usize::MAX` as "unlimited")
+            let n = if self.rng.pct(6) { usize::MAX } else { self.rng.range(1, 4) as usize };
             // a blocking lock whose callback keeps the guard of the key itself would never return
             let allow_stash = !(var.is_blocking() && self.evictable(k));
             let nrounds = self.rng.below(4);
